@@ -46,9 +46,18 @@ PC = ["a", "/", "%", "."]
 EXTRA_T = ["\ud800", "\r"]  # thorough: an unrepresentable lone surrogate (exercises the precondition) and CR
 
 
+LAST_N = [0]
+
+
 def gen(X, tag, alpha, maxlen, empty=""):
     n = X.choose(tag + "len", maxlen + 1)
+    LAST_N[0] = n
     return empty[:0].join([X.choose(tag, alpha) for _ in range(n)]) if n else empty[:0]
+
+
+def second_max(tier, maxlen):
+    """quick tier: key and value together have at most 3 units (each still 0-2); thorough: independent"""
+    return maxlen if tier != "quick" else min(maxlen, 3 - LAST_N[0])
 
 
 def _pairs(X, tier, alpha, core, extra=()):
@@ -58,7 +67,8 @@ def _pairs(X, tier, alpha, core, extra=()):
     if tier != "quick":
         alpha = alpha + [e for e in extra if e not in alpha]
     if shape == "one":
-        return shape, [(gen(X, "k", alpha, 2), gen(X, "v", alpha, 2))]
+        k = gen(X, "k", alpha, 2)
+        return shape, [(k, gen(X, "v", alpha, second_max(tier, 2)))]
     n = X.choose("npairs", 3 if tier == "quick" else 4)
     return shape, [(gen(X, "k", core, 1), gen(X, "v", core, 1)) for _ in range(n)]
 
@@ -130,7 +140,7 @@ def h_form(X, tier):
     X.check(_tuples(req.urlencoded_form) == pairs, "C34/urlencoded/writeback", f"writing the form view back changed it: {_tuples(req.urlencoded_form)!r} != {pairs!r}")
 
 
-def _cookie_pairs(X, tier):
+def _cookie_pairs(X, tier, vmax=3):
     shape = X.choose("shape", ["one", "many"])
     alpha = CA if tier == "quick" else CA + ["\ud800", "\r", "A"]
     pairs, tiers = [], []
@@ -138,7 +148,7 @@ def _cookie_pairs(X, tier):
     for _ in range(n):
         k = gen(X, "k", alpha if shape == "one" else CC, 2 if shape == "one" else 1)
         X.assume(R.cookie_name_ok(k))
-        v = gen(X, "v", alpha if shape == "one" else CC, 3 if shape == "one" else 2)
+        v = gen(X, "v", alpha if shape == "one" else CC, (vmax if tier == "quick" else 3) if shape == "one" else (1 if tier == "quick" else 2))
         t = R.cookie_value_tier(v)
         X.assume(t is not None)
         pairs.append((k, v))
@@ -178,7 +188,7 @@ def h_setcookies(X, tier):
     from mitmproxy.net.http.cookies import CookieAttrs
     from mitmproxy.test import tutils
 
-    pairs, t = _cookie_pairs(X, tier)
+    pairs, t = _cookie_pairs(X, tier, vmax=2)
     attrs = [X.choose("attrs", ATTRS) for _ in pairs]
     resp = tutils.tresp()
     keep = list(resp.headers.fields)
@@ -212,7 +222,7 @@ def h_multipart(X, tier):
     for _ in range(n):
         k = gen(X, "k", MA if shape == "one" else MC, 2 if shape == "one" else 1, empty=b"")
         X.assume(R.multipart_name_ok(k))
-        v = gen(X, "v", MA if shape == "one" else MC, 2, empty=b"")
+        v = gen(X, "v", MA if shape == "one" else MC, second_max(tier, 2) if shape == "one" else (1 if tier == "quick" else 2), empty=b"")
         if preset:
             X.assume(R.multipart_value_ok(v, b"B"))
         pairs.append((k, v))
@@ -262,7 +272,9 @@ def h_path(X, tier):
         base = X.choose("base", [b"/old/path", b"/old;par?x=1&y#frag", b"/"])
     else:
         n = X.choose("ncomps", [0, 2] if tier == "quick" else [0, 2, 3])
-        comps = [gen(X, "c", alpha if n == 2 else PC, 2 if n == 2 else 1) for _ in range(n)]
+        comps = []
+        for _ in range(n):
+            comps.append(gen(X, "c", alpha if n == 2 else PC, (second_max(tier, 2) if comps else 2) if n == 2 else 1))
         base = b"/old/path"
     X.assume(all(R.is_binary_safe_text(c) for c in comps))
     req = tutils.treq(path=base)
@@ -386,7 +398,8 @@ def _noparam(p):
 
 
 def obligations(tier):
-    b = "keys/values of 0-2 units over the per-format alphabet for one pair; 0-1 unit over the core alphabet for %s pairs" % ("<= 2" if tier == "quick" else "<= 3")
+    b = "keys/values of 0-2 units%s over the per-format alphabet for one pair; 0-1 unit over the core alphabet for %s pairs" % (
+        (" (together <= 3 units)", "<= 2") if tier == "quick" else ("", "<= 3"))
     mk = lambda h: (lambda X: h(X, tier))  # noqa: E731
     return [
         Symx("query", mk(h_query), bounds=f"Request.query: {b}; alphabet {QA!r}, core {QC!r}; base targets with params/old query/fragment", encoded=ENCODED, must_reach=["assigned"], parallel_depth=3),
